@@ -55,7 +55,11 @@ def isIntRange (r : String) : Bool :=
 
 /-- one feature of a flat structure -/
 def FlatFeat (K : Consts) (ts : TypeSystem) (c : Cas) (ci : Nat) (hp : Heap) (isAnn : Bool) (o : Obj) (f : Feature) : Prop :=
-  f.reserved = false ∧ f.name ≠ "xmiID" ∧ f.name ≠ "type" ∧ f.name ≠ ID ∧
+  f.reserved = false ∧ f.name ≠ "xmiID" ∧ f.name ≠ "type" ∧ f.name ≠ "self" ∧ f.name ≠ ID ∧
+  -- the range is not a collection in any of the senses the codec tests (automatic for the generated constants `K`
+  -- and a consistent type system; needed because `K` and `ts` are arbitrary here)
+  isPrimitiveArray K f.range = false ∧ isPrimitiveList K f.range = false ∧ f.range ≠ FS_ARRAY ∧ f.range ≠ FS_LIST ∧
+  isInstanceOf ts f.range STRING_ARRAY = false ∧ isInstanceOf ts f.range STRING_LIST = false ∧
   ∃ v : Val, alistGet? o.slots f.name = some v ∧
     ( -- the sofa reference: a view of this CAS (a structure that is not an annotation may have none)
       (f.name = "sofa" ∧ ((∃ vn, v = .sofa ci vn ∧ (Cas.getViewRec c vn).isSome = true) ∨ (v = .none ∧ isAnn = false)))
@@ -68,14 +72,18 @@ def FlatFeat (K : Consts) (ts : TypeSystem) (c : Cas) (ci : Nat) (hp : Heap) (is
         ∨ ((f.range = "uima.cas.Float" ∨ f.range = "uima.cas.Double") ∧ ∃ t : String, v = .float t)))
     ∨ -- plain references
       (f.name ≠ "sofa" ∧ isPrimitive K ts f.range = false ∧ isArray K f.range = false ∧ isList K f.range = false ∧
-        isInstanceOf ts f.range STRING_ARRAY = false ∧ isInstanceOf ts f.range STRING_LIST = false ∧
+        f.range ≠ "uima.cas.Boolean" ∧ f.range ≠ "uima.cas.Double" ∧ f.range ≠ "uima.cas.Float" ∧
         (v = .none ∨ ∃ b : Nat, v = .ref b ∧ (xidOf hp b).isSome = true ∧ xidOf hp b ≠ some 0)))
 
-/-- a flat structure: registered non-collection type, one slot per constructor field, every feature flat; an
-    annotation has integer offsets inside the text of its sofa -/
+/-- a flat structure: registered non-collection type (not the sofa or view pseudo-types), feature names pairwise
+    distinct, one slot per constructor field, every feature flat; an annotation has integer offsets inside the text
+    of its sofa -/
 def FlatFs (K : Consts) (ts : TypeSystem) (c : Cas) (ci : Nat) (hp : Heap) (a : Nat) : Prop :=
   ∃ (o : Obj) (t : TypeRec), hp[a]? = some o ∧ find? ts o.ty = some t ∧ t.name = o.ty ∧
     isArray K o.ty = false ∧ isList K o.ty = false ∧ t.super ≠ some ARRAY_BASE ∧
+    isPrimitiveArray K o.ty = false ∧ o.ty ≠ FS_ARRAY ∧ isInstanceOf ts o.ty STRING_ARRAY = false ∧
+    o.ty ≠ SOFA ∧ o.ty ≠ VIEW_T ∧
+    (ctorFields t).Nodup ∧
     o.slots.map (·.1) = (ctorFields t).eraseDups ∧
     (∀ f ∈ allFeatures t, FlatFeat K ts c ci hp (isInstanceOf ts o.ty ANNOTATION) o f) ∧
     (isInstanceOf ts o.ty ANNOTATION = true →
@@ -83,6 +91,20 @@ def FlatFs (K : Consts) (ts : TypeSystem) (c : Cas) (ci : Nat) (hp : Heap) (a : 
         alistGet? o.slots "sofa" = some (.sofa ci vn) ∧ Cas.getViewRec c vn = some v ∧ v.sofa.text = some text ∧
         alistGet? o.slots "begin" = some (.int b) ∧ alistGet? o.slots "end" = some (.int e) ∧
         b ≤ text.length ∧ e ≤ text.length)
+
+/-- the indexed structures can be indexed again: the sort key of each exists (`begin`/`end` are both integers, both
+    `None`, or absent), and within one view the structures of one type agree on having `None` offsets (Python
+    cannot order `None` against an integer: `Cas.add` raises `TypeError`) -/
+def MembersOk (c : Cas) (hp : Heap) : Prop :=
+  ∀ nv ∈ c.views,
+    (∀ e ∈ Index.all nv.2.idx, ∃ (o : Obj) (k : Index.Entry), hp[e.oid]? = some o ∧ Cas.entryOf o e.oid = .ok k) ∧
+    (∀ e1 ∈ Index.all nv.2.idx, ∀ e2 ∈ Index.all nv.2.idx, ∀ (o1 o2 : Obj) (k1 k2 : Index.Entry),
+      hp[e1.oid]? = some o1 → hp[e2.oid]? = some o2 → o1.ty = o2.ty →
+      Cas.entryOf o1 e1.oid = .ok k1 → Cas.entryOf o2 e2.oid = .ok k2 →
+      (k1.b = Index.NONE_KEY ↔ k2.b = Index.NONE_KEY))
+
+/-- the `cas:NULL` type (the type of the first element of every document) is registered and has no features -/
+def NullOk (ts : TypeSystem) : Prop := ∃ t0 : TypeRec, find? ts NULL_T = some t0 ∧ allFeatures t0 = []
 
 /-- well-formedness of the CAS that is written: what `Cas(...)`/`create_view`/the sofa setter establish -/
 structure RTWf (c : Cas) (hp : Heap) : Prop where
@@ -102,5 +124,7 @@ structure RTWf (c : Cas) (hp : Heap) : Prop where
   next_pos : 0 < c.nextXid
   ids_below : Traverse.IdsBelow hp c.nextXid
   sofa_ids : ∀ nv ∈ c.views, 0 < nv.2.sofa.xid ∧ nv.2.sofa.xid < c.nextXid
+  /-- ids in use are positive (the generator starts at 1; id 0 is the `cas:NULL` element of a document) -/
+  ids_pos : ∀ (a : Nat) (ob : Obj) (x : Int), hp[a]? = some ob → ob.xid = some x → 0 < x
 
 end Cassis.Xmi
